@@ -40,13 +40,39 @@ pub fn check(c: &Case, stats: &mut Stats) -> CheckResult {
     let m = Model::new(&src_facts);
     stats.count(&format!("path:{}", c.path.name()), 1);
     ensure!(m.has(c.root) && !c.leaves.is_empty() && c.leaves.iter().all(|l| m.has(*l)), "harness/bad-case", "root/leaves must be terms of the source");
-    let mut mods = m.default_modifier().unwrap_or_default();
-    if !c.custom_modifier.is_empty() {
-        // user-defined modifier roots (any terms of the source)
-        mods = c.custom_modifier.iter().map(|p| m.ids[pick(*p, m.ids.len())]).collect();
-        *src.modifier_mut() = mods.iter().map(|t| hpo::HpoTermId::from_u32(*t)).collect();
-        stats.label("custom-modifier-roots");
+    let default_mods = m.default_modifier().unwrap_or_default();
+    if c.custom_modifier.is_empty() {
+        return check_request(&src, c, &m, &src_facts, &default_mods, stats);
     }
+    // user-defined modifier roots (any terms of the source), set through modifier_mut(); the request is made twice
+    // on the same ontology value, once under the user-defined and once under the default roots, in either order
+    // (the roots may change between two calls)
+    let custom: BTreeSet<u32> = c.custom_modifier.iter().map(|p| m.ids[pick(*p, m.ids.len())]).collect();
+    stats.label("custom-modifier-roots");
+    let custom_first = c.custom_modifier[0] % 2 == 0;
+    for step in 0..2 {
+        let use_custom = (step == 0) == custom_first;
+        let mods = if use_custom {
+            *src.modifier_mut() = custom.iter().map(|t| hpo::HpoTermId::from_u32(*t)).collect();
+            &custom
+        } else {
+            if step == 0 {
+                // as built: the default roots
+            } else if src.set_default_modifier().is_err() {
+                ensure!(!(m.has(1) && m.has(118)), "set_default_modifier/fails", "set_default_modifier failed although HP:0000001 and HP:0000118 exist");
+                break;
+            }
+            &default_mods
+        };
+        if step == 1 {
+            stats.label("second-request-after-the-modifier-roots-changed");
+        }
+        check_request(&src, c, &m, &src_facts, mods, stats)?;
+    }
+    Ok(())
+}
+
+fn check_request(src: &hpo::Ontology, c: &Case, m: &Model, src_facts: &Facts, mods: &BTreeSet<u32>, stats: &mut Stats) -> CheckResult {
     let inside: BTreeSet<u32> = {
         let mut s = m.desc[m.i(c.root)].clone();
         s.insert(c.root);
